@@ -92,13 +92,18 @@ def _run(prop, tier, prof, replay_path, t0, sd, work):
                                  timeout=tp["verify"].get("timeout", 900))
         log(f"[{prop}] model: {verify.get('distinct')} distinct states, "
             f"{verify.get('generated')} transitions, ok={verify.get('ok')} ({verify['wall_s']}s)")
-        if verify.get("violated"):
-            # a counterexample of the model alone is never reported as a violation (DESIGN 5)
-            log(verify.get("counterexample", ""))
-            raise vlib.ToolError(f"model invariant {verify['violated']} violated - the model "
-                                 "needs correcting or the counterexample confirming on the code")
-        # 2. generate behaviours
         raw = []
+        if verify.get("violated"):
+            # a counterexample of the model alone is never reported as a violation (DESIGN 5):
+            # it is replayed on the real tree first
+            if not verify.get("cex_ops"):
+                log(verify.get("counterexample", ""))
+                raise vlib.ToolError(f"model invariant {verify['violated']} violated and the "
+                                     "counterexample could not be extracted")
+            log(f"[{prop}] model invariant {verify['violated']} violated; replaying the "
+                f"counterexample ({len(verify['cex_ops'])} steps) on the real tree")
+            raw.append(verify["cex_ops"])
+        # 2. generate behaviours
         for g in tp["gen"]:
             if g["mode"] == "sim":
                 bs = vlib.tlc_generate_sim(prop, g["constants"], work, g["num"], g["depth"],
@@ -112,6 +117,11 @@ def _run(prop, tier, prof, replay_path, t0, sd, work):
             raw.extend(bs)
         raw = dedupe(raw)
         behaviours = assign_configs(raw, prof, sd)
+        # one dedicated run per listed finding shows that it still reproduces
+        for f in known.get("findings", []):
+            if f.get("property") == prop and f.get("example_replay"):
+                with open(os.path.join(vlib.VERIF, f["example_replay"])) as fh:
+                    behaviours.append(json.load(fh)["behaviour"])
 
     # 3. replay on the real tree
     trace, summary = vlib.harness_replay(behaviours, work, prop, nkeys, prof.get("harness_args", []))
@@ -120,8 +130,16 @@ def _run(prop, tier, prof, replay_path, t0, sd, work):
     msgs, lines = vlib.validate_trace(trace, work, prop, nkeys, par=tp.get("par", 8))
 
     viols, drifts, other = [], [], []
+    listed = {f["id"]: f for f in known.get("findings", []) if f.get("property") == prop}
+    tlc_known = {}
     for m in msgs:
-        if m["kind"] == "VIOL" and m["what"] in viol_kinds:
+        if m["kind"] == "KNOWN":
+            if m["what"] in listed:
+                tlc_known.setdefault(m["what"], []).append(m)
+            elif "READ" in viol_kinds:
+                # a signature that is not listed suppresses nothing
+                viols.append(dict(m, kind="VIOL", what="READ"))
+        elif m["kind"] == "VIOL" and m["what"] in viol_kinds:
             viols.append(m)
         elif m["kind"] == "VIOL":
             other.append(m)
@@ -160,7 +178,7 @@ def _run(prop, tier, prof, replay_path, t0, sd, work):
         "drift_lines": len(drifts),
         "drift_samples": drifts[:3],
         "signals_for_other_properties": sorted({m["what"] for m in other}),
-        "known_findings_reproduced": [k[0]["id"] for k in known_hits],
+        "known_findings_reproduced": sorted({k[0]["id"] for k in known_hits} | set(tlc_known)),
         "checked_predicates": sorted(viol_kinds),
         "exhaustive": False,
     }
@@ -169,6 +187,11 @@ def _run(prop, tier, prof, replay_path, t0, sd, work):
     for fid in sorted({k[0]["id"] for k in known_hits}):
         kf = next(k[0] for k in known_hits if k[0]["id"] == fid)
         print(f"KNOWN-FINDING: property={prop} {kf['summary']}")
+    for fid in sorted(tlc_known):
+        print(f"KNOWN-FINDING: property={prop} {fid}: {listed[fid]['summary']}")
+    if verify and verify.get("violated") and not reported and not known_hits:
+        raise vlib.ToolError(f"model invariant {verify['violated']} is violated but the real tree "
+                             "does not show it: the model misrepresents the code")
     rc = 0
     for cut, m in reported[:5]:
         p = vlib.save_replay(prop, cut, m)
